@@ -182,6 +182,16 @@ func Yield() { runtime.Gosched() }
 func Concrete64(x uint64) uint64 { return x }
 func ConcreteInt(x int) int      { return x }
 
+// Param is a per-check parameter of the harness (set in /verif/checks/*.json; def when absent).
+func Param(name string, def int) int {
+	if cur != nil {
+		if v, ok := cur.Scalars["param!"+name]; ok {
+			return int(int64(v))
+		}
+	}
+	return def
+}
+
 // Symbolic reports whether the harness runs under the engine.
 func Symbolic() bool { return false }
 
